@@ -274,6 +274,10 @@ def det_strategy(*, timers: bool = False, hitl: bool = False):
             # the asking step first waits for an early confirmation (answered once by the harness) and only then for the reply:
             # two sequential waits in one step, so the step is parked on the later one with the earlier one settled
             "pre_wait": draw(st.sampled_from([False, False, True])) if hitl else False,
+            # K more work items that carry no payload at all (equal-valued events sent back to back), handled by their own step
+            "anon": draw(st.sampled_from([0, 0, 0, 2, 3])),
+            "anon_workers": draw(st.integers(1, 2)),
+            "anon_d": draw(st.sampled_from([0, 1, 2])),
             "ties": draw(st.lists(st.integers(0, 7), max_size=6)),
         }
 
@@ -290,9 +294,18 @@ def det_factory(case: dict, log: dict):
     log.setdefault("asked", [])
     log.setdefault("life", 0)
 
+    K = case.get("anon", 0) or 0
+
+    async def anon(self, ctx, ev):
+        if case.get("anon_d"):
+            await asyncio.sleep(case["anon_d"])
+        return ge.E4()
+
     async def start(self, ctx, ev):
         log.setdefault("start", []).append({"life": log["life"], "t": VClock.t})
         last = N - 1 if case.get("send_mode") == "mixed" else N
+        for _ in range(K):
+            ctx.send_event(ge.E0())
         for i in range(last):
             ctx.send_event(ge.E1(idx=i))
         if last < N:
@@ -322,10 +335,10 @@ def det_factory(case: dict, log: dict):
             ent["t_out"] = VClock.t
 
     async def gather(self, ctx, ev):
-        got = ctx.collect_events(ev, [ge.E2] * N)
+        got = ctx.collect_events(ev, [ge.E2] * N + [ge.E4] * K)
         if got is None:
             return None
-        ids = sorted(e.get("idx") for e in got)
+        ids = sorted(e.get("idx") for e in got if isinstance(e, ge.E2))
         if case.get("gather_post"):
             await asyncio.sleep(case["gather_post"])
         return ge.E3(ids=ids)
@@ -362,11 +375,12 @@ def det_factory(case: dict, log: dict):
     Nn = type(None)
     U = typing.Union
     members = {
-        "start": step(ann(start, "start", ge.GStart, U[ge.E1, Nn])),
+        "start": step(ann(start, "start", ge.GStart, U[ge.E1, ge.E0, Nn] if K else U[ge.E1, Nn])),
+        **({"anon": step(num_workers=case.get("anon_workers", 1))(ann(anon, "anon", ge.E0, U[ge.E4, Nn]))} if K else {}),
         "work": step(num_workers=case["workers"], retry_policy=rp.retry_policy(wait=rp.wait_fixed(case.get("retry_wait", 0)), stop=rp.stop_after_attempt(case["attempts"])))(
             ann(work, "work", ge.E1, U[ge.E2, Nn])
         ),
-        "gather": step(num_workers=1)(ann(gather, "gather", ge.E2, U[ge.E3, Nn])),
+        "gather": step(num_workers=1)(ann(gather, "gather", U[ge.E2, ge.E4] if K else ge.E2, U[ge.E3, Nn])),
         "ask": step(ann(ask, "ask", ge.E3, ge.GStop)),
     }
     cls = type("DetWf", (Workflow,), members)
